@@ -69,6 +69,8 @@ def configurations(tier, seed):
         if k == ks[0]:
             out.append(("temporary-schemas-generated-and-dropped-before", hs[0], [k], "fwd+churn"))
             # the process environment: two time zones half a day either side of UTC
+            out.append(("decimal-context", hs[0], [k], "fwd+decimal"))
+            out.append(("pure-operations-between-generations", hs[0], [k], "fwd+pure-ops"))
             out.append(("environment-TZ", hs[0], [k], "fwd@TZ=AAA-12"))
             out.append(("environment-TZ", hs[0], [k], "fwd@TZ=BBB+11"))
         other = ks[(ks.index(k) + 1) % len(ks)]
@@ -152,7 +154,9 @@ def run(tier, seed):
                     "further-instances-created-after-seeding": "further-instances-created-after-seeding",
                     "temporary-schemas-generated-and-dropped-before":
                         "temporary-schemas-generated-and-dropped-before",
-                    "environment-TZ": "the-TZ-environment-variable"
+                    "environment-TZ": "the-TZ-environment-variable",
+                    "decimal-context": "the-application's-decimal-context",
+                    "pure-operations-between-generations": "pure-operations-on-the-schema-between-generations"
                     }.get(label, "an-earlier-seed-in-the-same-process")
             i = diff[0]
             members = sorted({show(terms[j]) for i2 in diff[:200] for j in seqs[i2]})
